@@ -1742,8 +1742,12 @@ class Frame(ContainerOperand):
                 columns = columns_constructor(columns_arrays[0], name=columns_name)
             else:
                 columns_constructor = cls._COLUMNS_HIERARCHY_CONSTRUCTOR.from_labels
+                if store_filter is None:
+                    columns_labels = zip(*columns_arrays)
+                else:
+                    columns_labels = zip(*(store_filter.to_type_filter_iterable(x) for x in columns_arrays))
                 columns = columns_constructor(
-                        zip(*(store_filter.to_type_filter_iterable(x) for x in columns_arrays)),
+                        columns_labels,
                         name=columns_name,
                         )
             own_columns = True
